@@ -115,7 +115,7 @@ theorem q2_others_nc {c : Cfg} (hi : Inv c) :
   | l1 => exact isCons_inert
   | l2 =>
     simp only [hr] at hti ⊢
-    exact isCons_of_kind (.inl hti.1)
+    split <;> exact isCons_of_kind (.inl hti.1)
 
 theorem others_set_nc {ths : List Queue.Thread} {tid : Tid} {q : Queue.Thread}
     (h : ∀ (j : Nat) (u : Queue.Thread), j ≠ tid → ths[j]? = some u → isCons u = false) :
@@ -528,11 +528,22 @@ theorem good_stepL1 {c c' : Cfg} {tid : Tid} {t : Th} {alt : Bool} {lbl : String
 
 /-! ### second-level tasks -/
 
-theorem v2_l2 {t : Th} (hr : t.role = .l2) : v2 t = t.b := by simp [v2, hr]
+theorem v2_l2 {t : Th} (hr : t.role = .l2) (h : ¬ (t.x = .idle ∧ stopSeen t = true)) : v2 t = t.b := by
+  simp [v2, hr, h]
+theorem v2_l2s {t : Th} (hr : t.role = .l2) (hx : t.x = .idle) (hm : stopSeen t = true) :
+    v2 t = { t.b with rets := [0] } := by
+  simp [v2, hr, hx, hm]
 theorem v1_l2_off {t : Th} (hr : t.role = .l2) (h1 : t.x ≠ .deq) (h2 : t.x ≠ .up) : v1 t = inertT := by
   simp [v1, hr, h1, h2]
 theorem v1_l2_on {t : Th} (hr : t.role = .l2) (h : t.x = .deq ∨ t.x = .up) : v1 t = t.a := by
   simp [v1, hr, h]
+
+/-- a second-level task that has seen the end of the input queue is inside (or past) a clean `_stop_enqueue` -/
+theorem l2_seen {t : Th} (hr : t.role = .l2) (hti : TI t) (hx : t.x = .idle) (hm : stopSeen t = true) :
+    (tRegion t.b.pc = true ∨ t.b.pc = .done) ∧ t.b.reraise = none := by
+  unfold TI at hti
+  simp only [hr, hx] at hti
+  exact hti.2.2.2 hm
 
 /-- outside `next(iterator)` and before its end, a second-level task is inside the `Q2` API -/
 theorem l2_x_idle {t : Th} (hr : t.role = .l2) (hti : TI t) (h1 : t.b.pc ≠ .eNext) (h2 : t.b.pc ≠ .done) :
@@ -541,7 +552,7 @@ theorem l2_x_idle {t : Th} (hr : t.role = .l2) (hti : TI t) (h1 : t.b.pc ≠ .eN
   simp only [hr] at hti
   obtain ⟨-, hx⟩ := hti
   cases hxx : t.x <;> simp only [hxx] at hx
-  · exact ⟨rfl, hx.2⟩
+  · exact ⟨rfl, hx.2.1⟩
   · exact absurd hx.1 h1
   · exact absurd hx.1 h1
   · exact absurd hx.1 h1
@@ -561,6 +572,32 @@ theorem batchEnd_stop {pc : Pc} {res : List Elem} {a' : Queue.Thread} {cache cac
     (h : batchEnd pc res a' cache = some (.stop r, cache')) : pc = .bRaise := by
   unfold batchEnd at h
   (repeat' split at h) <;> simp_all
+
+/-- the hand `DequeueIterator(Q1).__next__` returns is a `StopIteration` exactly when the call raised one -/
+theorem batchEnd_raise {res : List Elem} {a' : Queue.Thread} {cache cache' : List Elem} {hd : Hand}
+    (h : batchEnd .bRaise res a' cache = some (hd, cache')) :
+    hd = (match a'.outcome with | some (.stop r) => Hand.stop r | some (.err e) => Hand.err e | _ => Hand.err .runtime) := by
+  simp only [batchEnd, reduceCtorEq, beq_self_eq_true, if_true, if_false, Bool.false_eq_true, beq_iff_eq] at h
+  (repeat' split at h) <;> simp only [Option.some.injEq, Prod.mk.injEq] at h <;> obtain ⟨rfl, -⟩ := h <;> simp_all
+
+theorem seen_iff_of_raise {a' : Queue.Thread} {hd : Hand}
+    (h : hd = (match a'.outcome with | some (.stop r) => Hand.stop r | some (.err e) => Hand.err e | _ => Hand.err .runtime)) :
+    (seenQ a' = true ↔ isStopH hd) := by
+  subst h
+  unfold seenQ
+  cases a'.outcome with
+  | none => simp [isStopH]
+  | some x => cases x <;> simp [isStopH]
+
+theorem seenQ_congr {a a' : Queue.Thread} (h : a'.outcome = a.outcome) : seenQ a' = seenQ a := by
+  unfold seenQ; rw [h]
+
+theorem batchEnd_bE3 {res : List Elem} {a' : Queue.Thread} {cache cache' : List Elem} {hd : Hand}
+    (h : batchEnd .bE3 res a' cache = some (hd, cache')) : (∃ v, hd = .item v) ∨ hd = .err .index := by
+  simp only [batchEnd, beq_self_eq_true, if_true] at h
+  (repeat' split at h) <;> simp only [Option.some.injEq, Prod.mk.injEq] at h <;> obtain ⟨rfl, -⟩ := h
+  · exact .inl ⟨_, rfl⟩
+  · exact .inr rfl
 
 theorem stopped_false_of_TL {q : Queue.Thread} (htl : TL q) (hk : pcKind q.pc = some .producer)
     (hr : tRegion q.pc = false) : stopped q = false := by
@@ -582,11 +619,26 @@ theorem no_early_by_count {qc : Queue.Cfg} {tid : Tid} {q : Queue.Thread} (hv : 
     have := countP_lt_of pastT isProd pastT_isProd (List.mem_of_getElem? hq) hip hpt
     omega
 
+/-- a `Q2` step of a task inside a clean `_stop_enqueue`, seen through the view that normalises its arguments -/
+theorem live_deleg_rets {qc : Queue.Cfg} {tid : Tid} {alt : Bool} {lbl : String} {s' : Shared} {b b' : Queue.Thread}
+    (hv : Queue.Live qc) (hto : qc.sh.timeout = false) (ha : qc.ths[tid]? = some { b with rets := [0] })
+    (hreg : tRegion b.pc = true) (hst : stepThread qc.sh b tid alt = some (lbl, s', b')) :
+    Queue.Live { sh := s', ths := qc.ths.set tid { b' with rets := [0] } } := by
+  obtain ⟨ret', hst'⟩ := (stepThread_rets (s := qc.sh) (tid := tid) (alt := alt) [0] hreg).1 lbl s' b' hst
+  have h1 := live_deleg hv hto ha hst' (sameFields_refl _)
+  exact live_returned (s := { s' with returned := ret' }) s'.returned h1
+
+theorem afterPull_a (F : Nat → Option (List Nat)) (fwd : Bool) (tid : Tid) (s : Shared) (t : Th) (r : Hand) :
+    (afterPull F fwd tid s t r).2.a = t.a := by
+  unfold afterPull failPull
+  (repeat' split) <;> rfl
+
 /-- what `afterPull` leaves: the `Q2` view, the constants, the thread's phase -/
 theorem afterPull_good {c : Cfg} {tid : Tid} {t : Th} (hg : Good c) (ht : c.ths[tid]? = some t) (hr : t.role = .l2)
-    (hpc : t.b.pc = .eNext) (hres : t.a.result = []) (hkb : t.b.prog.kind = .producer) (r : Hand) :
+    (hxx : t.x = .lockRel) (hpc : t.b.pc = .eNext) (hres : t.a.result = []) (hkb : t.b.prog.kind = .producer) (r : Hand)
+    (hm : stopSeen t = true ↔ isStopH r) :
     Queue.Live { sh := (afterPull F c.fwd tid c.s2 t r).1,
-                 ths := (q2cfg c).ths.set tid (afterPull F c.fwd tid c.s2 t r).2.b } ∧
+                 ths := (q2cfg c).ths.set tid (v2 (afterPull F c.fwd tid c.s2 t r).2) } ∧
     ((afterPull F c.fwd tid c.s2 t r).1.timeout = false ∧ (afterPull F c.fwd tid c.s2 t r).1.ignoreError = false) ∧
     TI (afterPull F c.fwd tid c.s2 t r).2 ∧
     ((afterPull F c.fwd tid c.s2 t r).2.x = .idle ∨ (afterPull F c.fwd tid c.s2 t r).2.x = .lockAcq) ∧
@@ -594,40 +646,51 @@ theorem afterPull_good {c : Cfg} {tid : Tid} {t : Th} (hg : Good c) (ht : c.ths[
     (afterPull F c.fwd tid c.s2 t r).2.b.pc ≠ .start := by
   have hi := hg.inv
   have hq := q2_get ht
-  rw [v2_l2 hr] at hq
-  have hfail : ∀ (e : ErrKind) (t1 : Th), t1.b = t.b → t1.role = t.role → t1.a = t.a →
-      Queue.Live { sh := (failPull e c.s2 t1).1, ths := (q2cfg c).ths.set tid (failPull e c.s2 t1).2.b } ∧
-      ((failPull e c.s2 t1).1.timeout = false ∧ (failPull e c.s2 t1).1.ignoreError = false) ∧
-      TI (failPull e c.s2 t1).2 ∧ ((failPull e c.s2 t1).2.x = .idle ∨ (failPull e c.s2 t1).2.x = .lockAcq) ∧
-      (Owes (failPull e c.s2 t1).2 → ∃ rets, r = .stop rets) ∧ (failPull e c.s2 t1).2.b.pc ≠ .start := by
-    intro e t1 h1 h2 h3
-    refine ⟨?_, ⟨hi.to2, hi.ig2⟩, ?_, .inl rfl, fun ho => ?_, by simp [failPull]⟩
-    rotate_left 2
-    · simp [Owes, failPull, tRegion] at ho
-    · unfold failPull
-      rw [h1]
-      exact live_fail_any (c := q2cfg c) e hg.live2 hi.to2 hi.ig2 hq hpc ⟨rfl, rfl, rfl, rfl, rfl, rfl⟩
-    · unfold TI failPull
-      simp [h1, h2, h3, hr, hkb, hres]
-  unfold afterPull
-  split
-  · refine ⟨?_, ⟨hi.to2, hi.ig2⟩, ?_, .inl rfl, fun _ => ⟨_, rfl⟩, by simp⟩
-    · exact live_enext_stop (c := q2cfg c) hg.live2 hi.to2 hq hpc
-        ⟨rfl, rfl, rfl, by simp [hi.gen], rfl, rfl⟩
-    · unfold TI; simp [hr, hkb, hres]
-  · exact hfail _ t rfl rfl rfl
-  · rename_i v
+  rw [v2_l2 hr (by simp [hxx])] at hq
+  have hrole := afterPull_role F c.fwd tid c.s2 t r
+  have hr' : (afterPull F c.fwd tid c.s2 t r).2.role = .l2 := by rw [hrole]; exact hr
+  have hseen : stopSeen (afterPull F c.fwd tid c.s2 t r).2 = stopSeen t := by
+    unfold stopSeen; rw [afterPull_a]
+  cases r with
+  | stop rets =>
+    have hm' : stopSeen t = true := hm.mpr trivial
+    have hx' : (afterPull F c.fwd tid c.s2 t (.stop rets)).2.x = .idle := rfl
+    rw [v2_l2s hr' hx' (by rw [hseen]; exact hm')]
+    refine ⟨?_, ⟨hi.to2, hi.ig2⟩, ?_, .inl rfl, fun _ => ⟨_, rfl⟩, by simp [afterPull]⟩
+    · exact live_enext_stop (c := q2cfg c) hg.live2 hi.to2 hq hpc ⟨rfl, rfl, rfl, rfl, rfl, rfl⟩
+    · unfold TI; simp [afterPull, hr, hkb, hres, tRegion]
+  | err e =>
+    have hm' : stopSeen t = false := by
+      cases h : stopSeen t with
+      | false => rfl
+      | true => exact absurd (hm.mp h) (by simp [isStopH])
+    rw [v2_l2 hr' (by rw [hseen, hm']; simp)]
+    refine ⟨?_, ⟨hi.to2, hi.ig2⟩, ?_, .inl rfl, fun ho => ?_, by simp [afterPull, failPull]⟩
+    · exact live_fail_any (c := q2cfg c) e hg.live2 hi.to2 hi.ig2 hq hpc ⟨rfl, rfl, rfl, rfl, rfl, rfl⟩
+    · have hsq : seenQ t.a = false := hm'
+      unfold TI; simp [afterPull, failPull, hr, hkb, hres, stopSeen, hsq]
+    · simp [Owes, afterPull, failPull, tRegion] at ho
+  | item v =>
+    have hm' : stopSeen t = false := by
+      cases h : stopSeen t with
+      | false => rfl
+      | true => exact absurd (hm.mp h) (by simp [isStopH])
+    rw [v2_l2 hr' (by rw [hseen, hm']; simp)]
+    have hm'' : seenQ t.a = false := hm'
+    simp only [afterPull]
     split
-    · exact hfail _ _ rfl rfl rfl
+    · refine ⟨?_, ⟨hi.to2, hi.ig2⟩, ?_, .inl rfl, fun ho => ?_, by simp [failPull]⟩
+      · exact live_fail_any (c := q2cfg c) .value hg.live2 hi.to2 hi.ig2 hq hpc ⟨rfl, rfl, rfl, rfl, rfl, rfl⟩
+      · unfold TI; simp [failPull, hr, hkb, hres, stopSeen, hm'']
+      · simp [Owes, failPull, tRegion] at ho
     · refine ⟨?_, ⟨hi.to2, hi.ig2⟩, ?_, .inr rfl, fun ho => ?_, by simp [hpc]⟩
       · exact live_fields (c := q2cfg c) hg.live2 hq ⟨rfl, rfl, rfl, rfl, rfl, rfl⟩
-      · unfold TI; simp [hr, hkb, hres, hpc]
+      · unfold TI; simp [hr, hkb, hres, hpc, stopSeen, hm'']
       · simp [Owes] at ho
     · refine ⟨?_, ⟨hi.to2, hi.ig2⟩, ?_, .inl rfl, fun ho => ?_, by simp⟩
-      rotate_left 2
-      · simp [Owes, tRegion] at ho
       · exact live_enext_val (c := q2cfg c) hg.live2 hi.to2 hq hpc ⟨rfl, rfl, rfl, rfl, rfl, rfl⟩
-      · unfold TI; simp [hr, hkb, hres]
+      · unfold TI; simp [hr, hkb, hres, stopSeen, hm'']
+      · simp [Owes, tRegion] at ho
 
 theorem postProd_spec (tid : Tid) (t : Th) (s2' : Shared) (b' : Queue.Thread) (hxi : t.x = .idle) :
     (postProd tid t s2' b').role = t.role ∧
@@ -635,7 +698,7 @@ theorem postProd_spec (tid : Tid) (t : Th) (s2' : Shared) (b' : Queue.Thread) (h
         (postProd tid t s2' b').a = t.a) ∨
      (b'.pc = .eNext ∧ (∃ y, (postProd tid t s2' b').b = { b' with pc := .pAcq, v := (tid, y) }) ∧
         (postProd tid t s2' b').x = .idle ∧ (postProd tid t s2' b').a = t.a) ∨
-     (b'.pc = .done ∧ (postProd tid t s2' b').b = b' ∧ (postProd tid t s2' b').x = .up ∧
+     (b'.pc = .done ∧ wantUp t.b.pc s2' b' = true ∧ (postProd tid t s2' b').b = b' ∧ (postProd tid t s2' b').x = .up ∧
         (postProd tid t s2' b').a = stopperAt t.a) ∨
      (b'.pc ≠ .eNext ∧ (postProd tid t s2' b').b = b' ∧ (postProd tid t s2' b').x = .idle ∧
         (postProd tid t s2' b').a = t.a ∧ (b'.pc = .done → wantUp t.b.pc s2' b' = false))) := by
@@ -653,25 +716,30 @@ theorem postProd_spec (tid : Tid) (t : Th) (s2' : Shared) (b' : Queue.Thread) (h
     split
     · rename_i hd
       simp only [Bool.and_eq_true, beq_iff_eq] at hd
-      exact .inr (.inr (.inl ⟨hd.1, rfl, rfl, rfl⟩))
+      exact .inr (.inr (.inl ⟨hd.1, hd.2, rfl, rfl, rfl⟩))
     · rename_i hd
       refine .inr (.inr (.inr ⟨he, rfl, hxi, rfl, fun hdone => ?_⟩))
       cases hw : wantUp t.b.pc s2' b' with
       | false => rfl
       | true => exact absurd (by simp [hdone, hw]) hd
 
-set_option maxHeartbeats 400000 in
+theorem stopSeen_stopperAt (t : Th) (a : Queue.Thread) (h : a.outcome = t.a.outcome) {t' : Th} (ha : t'.a = stopperAt a) :
+    stopSeen t' = stopSeen t := by
+  simp [stopSeen, seenQ, ha, stopperAt, h]
+
+set_option maxHeartbeats 800000 in
 theorem good_stepL2 {c c' : Cfg} {tid : Tid} {t : Th} {alt : Bool} {lbl : String} (hg : Good c)
     (ht : c.ths[tid]? = some t) (hr : t.role = .l2) (h : stepL2 F c tid t alt = some (lbl, c')) : Good c' := by
   have hi := hg.inv
   have hti := hi.ti t (List.mem_of_getElem? ht)
   have hq1 := q1_get ht
   have hq2 := q2_get ht
-  rw [v2_l2 hr] at hq2
   have hc1 : c.s1.timeout = false ∧ c.s1.ignoreError = false := ⟨hi.to1, hi.ig1⟩
   have hc2 : c.s2.timeout = false ∧ c.s2.ignoreError = false := ⟨hi.to2, hi.ig2⟩
   have htid1 : tid < (q1cfg c).ths.length := (List.getElem?_eq_some_iff.mp hq1).1
+  have htid2 : tid < (q2cfg c).ths.length := (List.getElem?_eq_some_iff.mp hq2).1
   have hkb : t.b.prog.kind = .producer := by unfold TI at hti; simp only [hr] at hti; exact hti.1
+  have hnc : t.role ≠ .cons := by rw [hr]; simp
   have hti' := hti
   unfold TI at hti'
   simp only [hr] at hti'
@@ -686,12 +754,21 @@ theorem good_stepL2 {c c' : Cfg} {tid : Tid} {t : Th} {alt : Bool} {lbl : String
     rename_i hgate
     obtain ⟨-, rfl⟩ := h
     obtain ⟨hxi, hres⟩ := l2_x_idle hr hti (by rw [hpc]; simp) (by rw [hpc]; simp)
+    have hns : stopSeen t = false := by
+      cases hm : stopSeen t with
+      | false => rfl
+      | true =>
+        have := (l2_seen hr hti hxi hm).1
+        rw [hpc] at this; simp [tRegion] at this
     rw [v1_l2_off hr (by simp [hxi]) (by simp [hxi])] at hq1
+    rw [v2_l2 hr (by simp [hns])] at hq2
     refine good_mk2 (t' := { t with b := { t.b with pc := .sAcq } }) hg ht rfl ?_ (.keep ?_)
-      (aux_task (by rw [hr]; simp) id (fun ho => by simp [Owes, hxi, tRegion] at ho) (by simp [Th.started, hr])
-        (.inr hgate))
-      (v1_l2_off hr (by simp [hxi]) (by simp [hxi])) (v2_l2 hr) (live_keep hg.live1 hq1) ?_ hc1 hc2
-    · unfold TI; simp [hr, hxi, hkb, hres]
+      (aux_task hnc id (fun ho => by simp [Owes, hxi, tRegion] at ho) (by simp [Th.started, hr]) (.inr hgate))
+      (v1_l2_off hr (by simp [hxi]) (by simp [hxi])) (v2_l2 hr (by show ¬ (_ ∧ stopSeen t = true); simp [hns]))
+      (live_keep hg.live1 hq1) ?_ hc1 hc2
+    · unfold TI
+      have hsq : seenQ t.a = false := hns
+      simp [hr, hxi, hkb, hres, stopSeen, hsq]
     · simp [HoldsI, hr, hxi]
     · cases hprog : t.b.prog with
       | producer src r =>
@@ -703,13 +780,14 @@ theorem good_stepL2 {c c' : Cfg} {tid : Tid} {t : Th} {alt : Bool} {lbl : String
   · -- eNext
     rename_i hpc
     have hst0 : t.started = true := by simp [Th.started, hr, hpc]
-    have hnc : t.role ≠ .cons := by rw [hr]; simp
     split at h
     · -- lockAcq
       rename_i hxx
       simp only [hxx] at hti'
-      have hres : t.a.result = [] := hti'.2
+      have hres : t.a.result = [] := hti'.2.1
+      have hns : stopSeen t = false := hti'.2.2
       rw [v1_l2_off hr (by simp [hxx]) (by simp [hxx])] at hq1
+      rw [v2_l2 hr (by simp [hxx])] at hq2
       split at h
       · simp at h
       split at h
@@ -720,9 +798,12 @@ theorem good_stepL2 {c c' : Cfg} {tid : Tid} {t : Th} {alt : Bool} {lbl : String
         simp only [Option.some.injEq, Prod.mk.injEq] at h
         obtain ⟨-, rfl⟩ := h
         refine good_mk2 (t' := { t with hand := .item v.2, x := .lockRel }) hg ht rfl ?_ (.acq hil ?_)
-          (aux_task hnc id (fun ho => by simp [Owes] at ho) (by simp [Th.started, hr, hpc]) (.inl hst0))
-          (v1_l2_off hr (by simp) (by simp)) (v2_l2 hr) (live_keep hg.live1 hq1) (live_keep hg.live2 hq2) hc1 hc2
-        · unfold TI; simp [hr, hkb, hpc, hres]
+          (aux_task hnc id (fun ho => by simp [Owes, isStopH] at ho) (by simp [Th.started, hr, hpc]) (.inl hst0))
+          (v1_l2_off hr (by simp) (by simp)) (v2_l2 hr (by simp)) (live_keep hg.live1 hq1) (live_keep hg.live2 hq2)
+          hc1 hc2
+        · unfold TI
+          have hsq : seenQ t.a = false := hns
+          simp [hr, hkb, hpc, hres, stopSeen, hsq, isStopH]
         · simp [HoldsI, hr]
       · simp only [Option.some.injEq, Prod.mk.injEq] at h
         obtain ⟨-, rfl⟩ := h
@@ -730,9 +811,13 @@ theorem good_stepL2 {c c' : Cfg} {tid : Tid} {t : Th} {alt : Bool} {lbl : String
           (t' := { t with a := { t.a with pc := .bAcq, prog := .batchLoop c.bm1 false, result := [] }, x := .deq })
           hg ht rfl ?_ (.acq hil ?_)
           (aux_task hnc id (fun ho => by simp [Owes] at ho) (by simp [Th.started, hr, hpc]) (.inl hst0))
-          (w1 := { t.a with pc := .bAcq, prog := .batchLoop c.bm1 false, result := [] }) (by simp [v1, hr]) (v2_l2 hr)
+          (w1 := { t.a with pc := .bAcq, prog := .batchLoop c.bm1 false, result := [] }) (by simp [v1, hr])
+          (v2_l2 hr (by simp))
           ?_ (live_keep hg.live2 hq2) hc1 hc2
-        · unfold TI; simp [hr, hkb, hpc, show (Prog.batchLoop c.bm1 false).kind = PKind.batch from rfl]
+        · unfold TI
+          have hsq : seenQ { t.a with pc := .bAcq, prog := .batchLoop c.bm1 false, result := [] } = false :=
+            (seenQ_congr rfl).trans hns
+          simp [hr, hkb, hpc, show (Prog.batchLoop c.bm1 false).kind = PKind.batch from rfl, stopSeen, hsq]
         · simp [HoldsI, hr]
         · refine live_swap_off hg.live1 hq1 offQ_inert (offQ_of_pc (by simp [Prog.kind]) (by simp)) (fun h => ?_)
             ⟨fun k hk => by simp [pcKind] at hk; rw [← hk]; rfl, fun hk => absurd rfl hk⟩ ?_ ?_
@@ -742,8 +827,9 @@ theorem good_stepL2 {c c' : Cfg} {tid : Tid} {t : Th} {alt : Bool} {lbl : String
     · -- deq
       rename_i hxx
       simp only [hxx] at hti'
-      obtain ⟨-, hka, hns, hnd⟩ := hti'
+      obtain ⟨-, hka, hns, hnd, hnseen⟩ := hti'
       rw [v1_l2_on hr (.inl hxx)] at hq1
+      rw [v2_l2 hr (by simp [hxx])] at hq2
       split at h
       · simp at h
       rename_i l s1' a' hst
@@ -755,6 +841,7 @@ theorem good_stepL2 {c c' : Cfg} {tid : Tid} {t : Th} {alt : Bool} {lbl : String
       have hne : t.a.pc ≠ .eNext := by intro e; rw [e] at hkind; simp [pcKind] at hkind
       obtain ⟨-, -, -, -, -, hA, hB, -, -⟩ := stepThread_arm l s1' a' hst hne
       obtain ⟨hp1, hp2⟩ := stepThread_pc l s1' a' hst
+      obtain ⟨-, -, -, hOut, -⟩ := stepThread_end l s1' a' hst
       have hka' : a'.prog.kind = .batch := by rw [hprog']; exact hka
       have hc1' : s1'.timeout = false ∧ s1'.ignoreError = false :=
         ⟨by rw [k1]; exact hi.to1, by rw [k3]; exact hi.ig1⟩
@@ -763,12 +850,13 @@ theorem good_stepL2 {c c' : Cfg} {tid : Tid} {t : Th} {alt : Bool} {lbl : String
         simp only [Option.some.injEq, Prod.mk.injEq] at h
         obtain ⟨-, rfl⟩ := h
         obtain ⟨-, hnr⟩ := batchEnd_none hbe
+        have hseen' : seenQ a' = false := (seenQ_congr (hOut hkind hnr)).trans hnseen
         refine good_mk2 (t' := { t with a := a' }) hg ht rfl ?_ (.keep ?_)
           (aux_task hnc (done1_mono hg hq1 hst) (fun ho => by simp [Owes, hxx] at ho) (by simp [Th.started, hr, hpc])
             (.inl hst0))
-          (v1_l2_on hr (.inl hxx)) (v2_l2 hr)
+          (v1_l2_on hr (.inl hxx)) (v2_l2 hr (by simp [hxx]))
           (live_deleg (qc := q1cfg c) hg.live1 hi.to1 hq1 hst (sameFields_refl _)) (live_keep hg.live2 hq2) hc1' hc2
-        · unfold TI; simp [hr, hxx, hkb, hpc, hka', hp1, hp2 hkind hnr]
+        · unfold TI; simp [hr, hxx, hkb, hpc, hka', hp1, hp2 hkind hnr, stopSeen, hseen']
         · simp [HoldsI, hr, hxx]
       · rename_i hd cache' hbe
         simp only [Option.some.injEq, Prod.mk.injEq] at h
@@ -777,14 +865,23 @@ theorem good_stepL2 {c c' : Cfg} {tid : Tid} {t : Th} {alt : Bool} {lbl : String
           rcases batchEnd_some hbe with e | e
           · exact ⟨.inr (hB e).1, (hB e).2.2.1⟩
           · exact ⟨.inl (hA e).1, (hA e).2.2.1⟩
+        have hseen' : stopSeen { t with a := a', hand := hd, x := .lockRel } = true ↔ isStopH hd := by
+          rcases batchEnd_some hbe with e | e
+          · have h1 : stopSeen { t with a := a', hand := hd, x := .lockRel } = false :=
+              (seenQ_congr (a' := a') (hOut hkind (by rw [e]; simp))).trans hnseen
+            rw [h1]
+            rw [e] at hbe
+            rcases batchEnd_bE3 hbe with ⟨v, rfl⟩ | rfl <;> simp [isStopH]
+          · rw [e] at hbe
+            exact seen_iff_of_raise (batchEnd_raise hbe)
         have hmono := done1_mono hg hq1 hst
         have howes : Owes { t with a := a', hand := hd, x := .lockRel } → s1'.enqueueDone = true := by
           intro ho
           simp only [Owes, reduceCtorEq, false_and, or_false, true_and] at ho
           obtain ⟨-, ho⟩ := ho
           cases hd with
-          | item v => cases ho
-          | err e => cases ho
+          | item v => simp [isStopH] at ho
+          | err e => simp [isStopH] at ho
           | stop r =>
             have hbr := batchEnd_stop hbe
             have hx := (hg.live1.base.xok t.a (List.mem_of_getElem? hq1)).2.2.2.2.1 (by simp [armed, hbr])
@@ -793,16 +890,16 @@ theorem good_stepL2 {c c' : Cfg} {tid : Tid} {t : Th} {alt : Bool} {lbl : String
             · rw [show (q1cfg c).sh.timeout = c.s1.timeout from rfl, hi.to1] at hx; cases hx
         refine good_mk2 (t' := { t with a := a', hand := hd, x := .lockRel }) hg ht rfl ?_ (.keep ?_)
           (aux_task hnc hmono howes (by simp [Th.started, hr, hpc]) (.inl hst0))
-          (v1_l2_off hr (by simp) (by simp)) (v2_l2 hr)
+          (v1_l2_off hr (by simp) (by simp)) (v2_l2 hr (by simp))
           (live_deleg_leave (qc := q1cfg c) hg.live1 hi.to1 hq1 hst (q1_others_nc hi ht ⟨hr, .inl hxx⟩)
             (by rw [hka']; simp) hend.1)
           (live_keep hg.live2 hq2) hc1' hc2
-        · unfold TI; simp [hr, hkb, hpc, hend.2]
+        · unfold TI; simp only [hr]; exact ⟨hkb, hpc, hend.2, hseen'⟩
         · simp [HoldsI, hr, hxx]
     · -- lockRel
       rename_i hxx
       simp only [hxx] at hti'
-      have hres : t.a.result = [] := hti'.2
+      have hres : t.a.result = [] := hti'.2.1
       rw [v1_l2_off hr (by simp [hxx]) (by simp [hxx])] at hq1
       split at h
       · simp at h
@@ -812,7 +909,7 @@ theorem good_stepL2 {c c' : Cfg} {tid : Tid} {t : Th} {alt : Bool} {lbl : String
       simp only [Option.some.injEq, Prod.mk.injEq] at h
       obtain ⟨-, rfl⟩ := h
       have hil' : c.ilock = some tid := by simpa using hil
-      obtain ⟨g1, g2, g3, g4, g5, g6⟩ := afterPull_good (F := F) hg ht hr hpc hres hkb t.hand
+      obtain ⟨g1, g2, g3, g4, g5, g6⟩ := afterPull_good (F := F) hg ht hr hxx hpc hres hkb t.hand hti'.2.2
       have hrole := afterPull_role F c.fwd tid c.s2 t t.hand
       have hr' : (afterPull F c.fwd tid c.s2 t t.hand).2.role = .l2 := by rw [hrole]; exact hr
       have howes : Owes (afterPull F c.fwd tid c.s2 t t.hand).2 → c.s1.enqueueDone = true := by
@@ -821,7 +918,7 @@ theorem good_stepL2 {c c' : Cfg} {tid : Tid} {t : Th} {alt : Bool} {lbl : String
         exact hi.d1 t (List.mem_of_getElem? ht) ⟨hr, .inl ⟨hxx, by rw [hh]; trivial⟩⟩
       refine good_mk2 hg ht hrole g3 (.rel hil' ?_)
         (aux_task hnc id howes (by simp [Th.started, hr', g6]) (.inl hst0))
-        (v1_l2_off hr' (by rcases g4 with e | e <;> simp [e]) (by rcases g4 with e | e <;> simp [e])) (v2_l2 hr')
+        (v1_l2_off hr' (by rcases g4 with e | e <;> simp [e]) (by rcases g4 with e | e <;> simp [e])) rfl
         (live_keep hg.live1 hq1) g1 hc1 g2
       rintro ⟨-, e | e⟩ <;> rcases g4 with e' | e' <;> rw [e'] at e <;> cases e
     · -- other x at eNext
@@ -831,8 +928,9 @@ theorem good_stepL2 {c c' : Cfg} {tid : Tid} {t : Th} {alt : Bool} {lbl : String
     split at h
     · rename_i hxx
       simp only [hxx] at hti'
-      obtain ⟨-, hka, hns, hnd⟩ := hti'
+      obtain ⟨-, hka, hns, hnd, hnseen⟩ := hti'
       rw [v1_l2_on hr (.inr hxx)] at hq1
+      rw [v2_l2 hr (by simp [hxx])] at hq2
       split at h
       · simp at h
       rename_i l s1' a' hst
@@ -842,14 +940,26 @@ theorem good_stepL2 {c c' : Cfg} {tid : Tid} {t : Th} {alt : Bool} {lbl : String
       obtain ⟨k1, -, k3⟩ := stepThread_const l s1' a' hst
       obtain ⟨htok', hprog', -⟩ := stepThread_data l s1' a' hst htok
       obtain ⟨hp1, -⟩ := stepThread_pc l s1' a' hst
+      obtain ⟨-, -, -, -, hOut⟩ := stepThread_end l s1' a' hst
+      have hkind := kind_of_tok htok hns hnd
+      rw [hka] at hkind
       have hka' : a'.prog.kind = .stopper := by rw [hprog']; exact hka
       have hres' : a'.result = [] := htok'.res (by rw [hka']; simp)
       have hc1' : s1'.timeout = false ∧ s1'.ignoreError = false :=
         ⟨by rw [k1]; exact hi.to1, by rw [k3]; exact hi.ig1⟩
       have hd1 := live_deleg (qc := q1cfg c) hg.live1 hi.to1 hq1 hst (sameFields_refl _)
       have hst0 : t.started = true := by simp [Th.started, hr, hpc]
-      have hnc : t.role ≠ .cons := by rw [hr]; simp
       have hmono := done1_mono hg hq1 hst
+      have hseen' : seenQ a' = false := by
+        have hn : seenQ t.a = false := hnseen
+        unfold seenQ at hn ⊢
+        cases ho : a'.outcome with
+        | none => rfl
+        | some o =>
+          cases o with
+          | stop r => rw [hOut hkind r ho] at hn; cases hn
+          | empty => rfl
+          | err e => rfl
       by_cases hd : a'.pc = .done
       · have hdone1 : s1'.enqueueDone = true := by
           have hmem : a' ∈ ({ sh := s1', ths := (q1cfg c).ths.set tid a' } : Queue.Cfg).ths :=
@@ -858,8 +968,8 @@ theorem good_stepL2 {c c' : Cfg} {tid : Tid} {t : Th} {alt : Bool} {lbl : String
           rw [enqueueDone_iff]; exact .inr (.inl hx)
         refine good_mk2 (t' := { t with a := a', x := (if a'.pc == .done then XPc.idle else XPc.up) })
           hg ht rfl ?_ (.keep ?_) (aux_task hnc hmono (fun _ => hdone1) (by simp [Th.started, hr, hpc]) (.inl hst0))
-          (w1 := inertT) (by simp [v1, hr, hd]) (v2_l2 hr) ?_ (live_keep hg.live2 hq2) hc1' hc2
-        · unfold TI; simp [hr, hd, hkb, hpc, hres']
+          (w1 := inertT) (by simp [v1, hr, hd]) (v2_l2 hr (by simp [stopSeen, hseen'])) ?_ (live_keep hg.live2 hq2) hc1' hc2
+        · unfold TI; simp [hr, hd, hkb, hpc, hres', stopSeen, hseen']
         · simp [HoldsI, hr, hd, hxx]
         · have := live_done_to_inert (tid := tid) (a := a') hd1
             (by show ((q1cfg c).ths.set tid a')[tid]? = some a'; simp [htid1]) (by rw [hka']; simp) hd
@@ -867,8 +977,8 @@ theorem good_stepL2 {c c' : Cfg} {tid : Tid} {t : Th} {alt : Bool} {lbl : String
       · refine good_mk2 (t' := { t with a := a', x := (if a'.pc == .done then XPc.idle else XPc.up) })
           hg ht rfl ?_ (.keep ?_)
           (aux_task hnc hmono (fun ho => by simp [Owes, hd] at ho) (by simp [Th.started, hr, hpc]) (.inl hst0))
-          (w1 := a') (by simp [v1, hr, hd]) (v2_l2 hr) hd1 (live_keep hg.live2 hq2) hc1' hc2
-        · unfold TI; simp [hr, hd, hkb, hpc, hka', hp1]
+          (w1 := a') (by simp [v1, hr, hd]) (v2_l2 hr (by simp [hd])) hd1 (live_keep hg.live2 hq2) hc1' hc2
+        · unfold TI; simp [hr, hd, hkb, hpc, hka', hp1, stopSeen, hseen']
         · simp [HoldsI, hr, hd, hxx]
     · simp at h
   · -- a step on the output queue
@@ -880,79 +990,122 @@ theorem good_stepL2 {c c' : Cfg} {tid : Tid} {t : Th} {alt : Bool} {lbl : String
     obtain ⟨-, rfl⟩ := h
     obtain ⟨hxi, hres⟩ := l2_x_idle hr hti (fun e => hn2 e) (fun e => hn3 e)
     rw [v1_l2_off hr (by simp [hxi]) (by simp [hxi])] at hq1
-    have htok : TOK t.b := hg.live2.base.tok t.b (List.mem_of_getElem? hq2)
     obtain ⟨k1, -, k3⟩ := stepThread_const l s2' b' hst
-    obtain ⟨htok', hprog', -⟩ := stepThread_data l s2' b' hst htok
     obtain ⟨hp1, -⟩ := stepThread_pc l s2' b' hst
-    have hkb' : b'.prog.kind = .producer := by rw [hprog']; exact hkb
     have hc2' : s2'.timeout = false ∧ s2'.ignoreError = false :=
       ⟨by rw [k1]; exact hi.to2, by rw [k3]; exact hi.ig2⟩
-    have h1 := live_deleg (qc := q2cfg c) hg.live2 hi.to2 hq2 hst (sameFields_refl _)
-    have htid2 : tid < (q2cfg c).ths.length := (List.getElem?_eq_some_iff.mp hq2).1
     obtain ⟨hrole, hspec⟩ := postProd_spec tid t s2' b' hxi
     have hr' : (postProd tid t s2' b').role = .l2 := by rw [hrole]; exact hr
     have hst0 : t.started = true := by
       simp only [Th.started, hr, bne_iff_ne, ne_eq]; exact fun e => hn1 e
-    have hnc : t.role ≠ .cons := by rw [hr]; simp
-    have hkindb : pcKind t.b.pc = some .producer := by
-      rw [kind_of_tok htok (fun e => hn1 e) (fun e => hn3 e), hkb]
-    obtain ⟨hE1, hE2⟩ := stepThread_end l s2' b' hst
-    rcases hspec with ⟨e1, e2, e3, e4⟩ | ⟨e1, ⟨y, e2⟩, e3, e4⟩ | ⟨e1, e2, e3, e4⟩ | ⟨e1, e2, e3, e4, e5⟩
-    · refine good_mk2 hg ht hrole ?_ (.keep ?_)
-        (aux_task hnc id (fun ho => by simp [Owes, e3] at ho) (by simp [Th.started, hr', e2, hp1]) (.inl hst0))
-        (v1_l2_off hr' (by simp [e3]) (by simp [e3])) (v2_l2 hr')
-        (live_keep hg.live1 hq1) (by rw [e2]; exact h1) hc1 hc2'
-      · unfold TI; simp [hr', e2, e3, e4, hkb', e1, hres]
-      · simp [HoldsI, hr, hr', e3, hxi]
-    · refine good_mk2 hg ht hrole ?_ (.keep ?_)
-        (aux_task hnc id (fun ho => by simp [Owes, e3, e2, tRegion] at ho) (by simp [Th.started, hr', e2]) (.inl hst0))
-        (v1_l2_off hr' (by simp [e3]) (by simp [e3])) (v2_l2 hr')
-        (live_keep hg.live1 hq1) ?_ hc1 hc2'
-      · unfold TI; simp [hr', e2, e3, e4, hkb', hres]
-      · simp [HoldsI, hr, hr', e3, hxi]
-      · rw [e2]
-        have := live_enext_val (b := { b' with pc := .pAcq, v := (tid, y) }) h1 (by show s2'.timeout = false; exact hc2'.1)
-          (by show ((q2cfg c).ths.set tid b')[tid]? = some b'; simp [htid2]) e1 ⟨rfl, rfl, rfl, rfl, rfl, rfl⟩
-        simpa [List.set_set] using this
-    · refine good_mk2 hg ht hrole ?_ (.keep ?_)
-        (aux_task hnc id (fun ho => by simp [Owes, e3] at ho) (by simp [Th.started, hr', e2, hp1]) (.inl hst0))
-        (w1 := stopperAt t.a) (by rw [v1_l2_on hr' (.inr e3), e4]) (v2_l2 hr')
-        (live_inert_to_stopper (qc := q1cfg c) hg.live1 hq1 hres) (by rw [e2]; exact h1) hc1 hc2'
-      · unfold TI
-        simp [hr', e2, e3, e4, hkb', e1, show (stopperAt t.a).prog.kind = PKind.stopper from rfl,
-          show (stopperAt t.a).pc = Pc.mAcq from rfl]
-      · simp [HoldsI, hr, hr', e3, hxi]
-    · have howes : Owes (postProd tid t s2' b') → c.s1.enqueueDone = true := by
-        rintro ⟨-, ho | ho | ho⟩
-        · rw [e3] at ho; cases ho.1
-        · rw [e2] at ho
-          rcases hE1 ho.2.1 with ⟨hreg, hre⟩ | he | ⟨-, hre⟩
-          · exact hi.d1 t (List.mem_of_getElem? ht) ⟨hr, .inr (.inl ⟨hxi, hreg, by rw [← hre]; exact ho.2.2⟩)⟩
-          · exact absurd he (fun e => hn2 e)
-          · rw [ho.2.2] at hre; cases hre
-        · rw [e2] at ho
-          have hw := e5 ho.2
-          rcases hE2 ho.2 hkindb with ⟨htr, hout⟩ | ⟨htr, hreg, hdn, hrets, hre⟩
-          · have hnone : t.b.reraise = none := by
-              simp only [wantUp, htr, beq_self_eq_true, if_true, hout] at hw
-              cases hrr : t.b.reraise with
-              | none => rfl
-              | some e => rw [hrr] at hw; simp at hw
-            exact hi.d1 t (List.mem_of_getElem? ht) ⟨hr, .inr (.inl ⟨hxi, by rw [htr]; rfl, hnone⟩)⟩
-          · exfalso
-            have hne : (t.b.pc == Pc.tRel) = false := by simpa using htr
-            simp only [wantUp, hne, Bool.false_eq_true, if_false, Bool.or_eq_false_iff] at hw
-            have hstop : stopped b' = false := by
-              have := stopped_false_of_TL (hg.live2.base.tl t.b (List.mem_of_getElem? hq2)) hkindb hreg
-              simpa [stopped, hrets, hre] using this
-            exact no_early_by_count h1 (by show ((q2cfg c).ths.set tid b')[tid]? = some b'; simp [htid2]) hkb' ho.2
-              hstop hdn hw.1 hw.2
-      refine good_mk2 hg ht hrole ?_ (.keep ?_)
-        (aux_task hnc id howes (by simp [Th.started, hr', e2, hp1]) (.inl hst0))
-        (v1_l2_off hr' (by simp [e3]) (by simp [e3])) (v2_l2 hr')
-        (live_keep hg.live1 hq1) (by rw [e2]; exact h1) hc1 hc2'
-      · unfold TI; simp [hr', e2, e3, e4, hkb', e1, hres]
-      · simp [HoldsI, hr, hr', e3, hxi]
+    obtain ⟨hE1, hE2, hE3, -, -⟩ := stepThread_end l s2' b' hst
+    cases hm : stopSeen t with
+    | true =>
+      -- inside a clean `_stop_enqueue`: the view normalises the arguments
+      obtain ⟨hreg, hrr⟩ := l2_seen hr hti hxi hm
+      have hreg' : tRegion t.b.pc = true := by
+        rcases hreg with h | h
+        · exact h
+        · exact absurd h (fun e => hn3 e)
+      rw [v2_l2s hr hxi hm] at hq2
+      obtain ⟨hnext, hrr', -⟩ := hE3 hreg'
+      have hne : b'.pc ≠ .eNext := by
+        rcases hnext with h | h <;> intro e <;> rw [e] at h <;> simp [tRegion] at h
+      have h1 := live_deleg_rets (qc := q2cfg c) hg.live2 hi.to2 hq2 hreg' hst
+      have hkb' : b'.prog.kind = .producer := by
+        have htok : TOK t.b := by
+          have := hg.live2.base.tok _ (List.mem_of_getElem? hq2)
+          exact ⟨this.kind, this.res⟩
+        rw [(stepThread_data l s2' b' hst htok).2.1]; exact hkb
+      rcases hspec with ⟨e1, -⟩ | ⟨e1, -⟩ | ⟨e1, ew, -⟩ | ⟨e1, e2, e3, e4, e5⟩
+      · exact absurd e1 hne
+      · exact absurd e1 hne
+      · exfalso
+        have hkindb : pcKind t.b.pc = some .producer := by
+          cases hp : t.b.pc <;> simp [hp, tRegion] at hreg' <;> simp [pcKind]
+        rcases hE2 e1 hkindb with ⟨htr, hout⟩ | ⟨-, hnr, -⟩
+        · simp [wantUp, htr, hout, hrr] at ew
+        · rw [hreg'] at hnr; cases hnr
+      · have hseen' : stopSeen (postProd tid t s2' b') = true := by unfold stopSeen; rw [e4]; exact hm
+        have howes : Owes (postProd tid t s2' b') → c.s1.enqueueDone = true := fun _ =>
+          hi.d1 t (List.mem_of_getElem? ht) ⟨hr, .inr (.inl ⟨hxi, hreg', hrr⟩)⟩
+        refine good_mk2 hg ht hrole ?_ (.keep ?_)
+          (aux_task hnc id howes (by simp [Th.started, hr', e2, hp1]) (.inl hst0))
+          (v1_l2_off hr' (by simp [e3]) (by simp [e3])) (v2_l2s hr' e3 hseen')
+          (live_keep hg.live1 hq1) (by rw [e2]; exact h1) hc1 hc2'
+        · unfold TI
+          simp only [hr', e3]
+          refine ⟨by rw [e2]; exact hkb', by rw [e2]; exact e1, by rw [e4]; exact hres, fun _ => ?_⟩
+          rw [e2]; exact ⟨hnext, by rw [hrr']; exact hrr⟩
+        · simp [HoldsI, hr, hr', e3, hxi]
+    | false =>
+      rw [v2_l2 hr (by simp [hm])] at hq2
+      have htok : TOK t.b := hg.live2.base.tok t.b (List.mem_of_getElem? hq2)
+      obtain ⟨htok', hprog', -⟩ := stepThread_data l s2' b' hst htok
+      have hkb' : b'.prog.kind = .producer := by rw [hprog']; exact hkb
+      have h1 := live_deleg (qc := q2cfg c) hg.live2 hi.to2 hq2 hst (sameFields_refl _)
+      have hkindb : pcKind t.b.pc = some .producer := by
+        rw [kind_of_tok htok (fun e => hn1 e) (fun e => hn3 e), hkb]
+      have hns' : ∀ t' : Th, t'.a = t.a → stopSeen t' = false := by
+        intro t' e; unfold stopSeen; rw [e]; exact hm
+      rcases hspec with ⟨e1, e2, e3, e4⟩ | ⟨e1, ⟨y, e2⟩, e3, e4⟩ | ⟨e1, ew, e2, e3, e4⟩ | ⟨e1, e2, e3, e4, e5⟩
+      · refine good_mk2 hg ht hrole ?_ (.keep ?_)
+          (aux_task hnc id (fun ho => by simp [Owes, e3] at ho) (by simp [Th.started, hr', e2, hp1]) (.inl hst0))
+          (v1_l2_off hr' (by simp [e3]) (by simp [e3])) (v2_l2 hr' (by simp [e3]))
+          (live_keep hg.live1 hq1) (by rw [e2]; exact h1) hc1 hc2'
+        · unfold TI; simp [hr', e2, e3, e4, hkb', e1, hres, hns' _ e4]
+        · simp [HoldsI, hr, hr', e3, hxi]
+      · refine good_mk2 hg ht hrole ?_ (.keep ?_)
+          (aux_task hnc id (fun ho => by simp [Owes, e3, e2, tRegion] at ho) (by simp [Th.started, hr', e2]) (.inl hst0))
+          (v1_l2_off hr' (by simp [e3]) (by simp [e3])) (v2_l2 hr' (by simp [hns' _ e4]))
+          (live_keep hg.live1 hq1) ?_ hc1 hc2'
+        · unfold TI; simp [hr', e2, e3, e4, hkb', hres, hns' _ e4]
+        · simp [HoldsI, hr, hr', e3, hxi]
+        · rw [e2]
+          have := live_enext_val (b := { b' with pc := .pAcq, v := (tid, y) }) h1 (by show s2'.timeout = false; exact hc2'.1)
+            (by show ((q2cfg c).ths.set tid b')[tid]? = some b'; simp [htid2]) e1 ⟨rfl, rfl, rfl, rfl, rfl, rfl⟩
+          simpa [List.set_set] using this
+      · have hseen' : stopSeen (postProd tid t s2' b') = false :=
+          (stopSeen_stopperAt t t.a rfl e4).trans hm
+        refine good_mk2 hg ht hrole ?_ (.keep ?_)
+          (aux_task hnc id (fun ho => by simp [Owes, e3] at ho) (by simp [Th.started, hr', e2, hp1]) (.inl hst0))
+          (w1 := stopperAt t.a) (by rw [v1_l2_on hr' (.inr e3), e4]) (v2_l2 hr' (by simp [e3]))
+          (live_inert_to_stopper (qc := q1cfg c) hg.live1 hq1 hres) (by rw [e2]; exact h1) hc1 hc2'
+        · unfold TI
+          simp [hr', e2, e3, e4, hkb', e1, show (stopperAt t.a).prog.kind = PKind.stopper from rfl,
+            show (stopperAt t.a).pc = Pc.mAcq from rfl, hseen']
+        · simp [HoldsI, hr, hr', e3, hxi]
+      · have howes : Owes (postProd tid t s2' b') → c.s1.enqueueDone = true := by
+          rintro ⟨-, ho | ho | ho⟩
+          · rw [e3] at ho; cases ho.1
+          · rw [e2] at ho
+            rcases hE1 ho.2.1 with ⟨hreg, hre⟩ | he | ⟨-, hre⟩
+            · exact hi.d1 t (List.mem_of_getElem? ht) ⟨hr, .inr (.inl ⟨hxi, hreg, by rw [← hre]; exact ho.2.2⟩)⟩
+            · exact absurd he (fun e => hn2 e)
+            · rw [ho.2.2] at hre; cases hre
+          · rw [e2] at ho
+            have hw := e5 ho.2
+            rcases hE2 ho.2 hkindb with ⟨htr, hout⟩ | ⟨htr, hreg, hdn, hrets, hre⟩
+            · have hnone : t.b.reraise = none := by
+                simp only [wantUp, htr, beq_self_eq_true, if_true, hout] at hw
+                cases hrr : t.b.reraise with
+                | none => rfl
+                | some e => rw [hrr] at hw; simp at hw
+              exact hi.d1 t (List.mem_of_getElem? ht) ⟨hr, .inr (.inl ⟨hxi, by rw [htr]; rfl, hnone⟩)⟩
+            · exfalso
+              have hne : (t.b.pc == Pc.tRel) = false := by simpa using htr
+              simp only [wantUp, hne, Bool.false_eq_true, if_false, Bool.or_eq_false_iff] at hw
+              have hstop : stopped b' = false := by
+                have := stopped_false_of_TL (hg.live2.base.tl t.b (List.mem_of_getElem? hq2)) hkindb hreg
+                simpa [stopped, hrets, hre] using this
+              exact no_early_by_count h1 (by show ((q2cfg c).ths.set tid b')[tid]? = some b'; simp [htid2]) hkb' ho.2
+                hstop hdn hw.1 hw.2
+        refine good_mk2 hg ht hrole ?_ (.keep ?_)
+          (aux_task hnc id howes (by simp [Th.started, hr', e2, hp1]) (.inl hst0))
+          (v1_l2_off hr' (by simp [e3]) (by simp [e3])) (v2_l2 hr' (by simp [hns' _ e4]))
+          (live_keep hg.live1 hq1) (by rw [e2]; exact h1) hc1 hc2'
+        · unfold TI; simp [hr', e2, e3, e4, hkb', e1, hres, hns' _ e4]
+        · simp [HoldsI, hr, hr', e3, hxi]
 
 /-- **both queues' no-lost-wake-up invariants are inductive over the steps of the two-queue LTS** -/
 theorem good_step {c c' : Cfg} {tid : Tid} {alt : Bool} {lbl : String} (hg : Good c)
